@@ -132,9 +132,14 @@ def _shape_treeiter_child_total(facts):
                 if any(fb.uses_local(a["body"], lid) for lid in pids):
                     fails.append("TreeIter::child tests the child itself (`%s`): it returns None for a childless node, and the builder unwraps child() of a document root "
                                  "(an empty note / an empty expansion then panics)" % fb.show(a)[:80])
-    rets_none = [x for x in fb.walk(f.body) if x.get("k") == "path" and fb.last_seg(fb.norm(x.get("def") or "")) == "None"]
-    if rets_none:
-        fails.append("TreeIter::child has an explicit None result")
+    from .common import ctx, controlling_tests, absent_test
+    c = ctx(f)
+    for x in fb.walk(f.body):
+        if x.get("k") == "path" and fb.last_seg(fb.norm(x.get("def") or "")) == "None":
+            # an explicit None is fine when it is the answer for a cursor that points at nothing (`if self.node().is_none() { return None }`)
+            tests = controlling_tests(c, x)
+            if not (tests and absent_test(c, tests[0], "::node")):
+                fails.append("TreeIter::child has an explicit None result that does not depend on `self.node()` being None")
     if not any(x.get("k") == "call" and fb.last_seg(fb.callee(x) or "") == "Some" for x in fb.walk(f.body)):
         fails.append("TreeIter::child no longer builds Some(child cursor)")
     return fails
